@@ -60,7 +60,7 @@ func DialRaw(addr string, timeout time.Duration) (*Client, error) {
 	if tc, ok := c.(*net.TCPConn); ok {
 		tc.SetNoDelay(true)
 	}
-	cl := &Client{C: c, r: bufio.NewReaderSize(c, 64<<10), Timeout: timeout}
+	cl := &Client{C: c, r: bufio.NewReaderSize(c, 8<<10), Timeout: timeout}
 	g, err := cl.ReadPacket()
 	if err != nil {
 		c.Close()
